@@ -62,6 +62,8 @@ def params_shards(tier, seed):
                 if tier == 'quick' and shape == 'tuple' and TAILS.index(tail) != seed % 4:
                     continue
                 out.append({'family': 'params', 'item': kindset, 'shape': shape, 'tail': tail})
+    out.append({'family': 'params', 'item': 'struct', 'shape': 'named', 'tail': None, 'parent': True})
+    out.append({'family': 'params', 'item': 'struct', 'shape': 'named', 'tail': 'ret', 'parent': True})
     return out
 
 
@@ -82,6 +84,8 @@ def make_params(sh):
             nm = (lambda s: s) if shape == 'named' else (lambda s: None)
             m0 = Member(nm('a'), instrs=[MapInstr('map', action='__e0(~, v1)', tag='e0')])
             m1 = Member(nm('b'))
+            if sh.get('parent'):
+                return Spec('struct', shape=shape, traits=[t1], members=[m0, m1, Member(nm('par'), ty='ParT', instrs=[ParentInstr()])])
             return Spec('struct', shape=shape, traits=[t1], members=[m0, m1])
         v0 = Member('A', shape='unit', instrs=[SimpleInstr('literal', '1')])
         v1 = Member('B', shape='tuple', fields=[Member(None)])
@@ -387,8 +391,49 @@ def make_misuse(sh):
     return make
 
 
-FAMILIES = {'misuse': make_misuse, 'c04': make_c04, 'flat': make_flat, 'params': make_params, 'ghosts': make_ghosts, 'child': make_child, 'parent': make_parent, 'enum': make_enum}
-SHARDERS = {'misuse': misuse_shards, 'c04': c04_shards, 'flat': flat_shards, 'params': params_shards, 'ghosts': ghosts_shards, 'child': child_shards, 'parent': parent_shards, 'enum': enum_shards}
+# ------------------------------------------------------------------------------------------ C07: all flavours of one mapping in one input
+def c07_shards(tier, seed):
+    out = []
+    for shape in ('named', 'tuple'):
+        for hint in ('Unspecified', 'Struct', 'Tuple'):
+            for variant in ('map', 'ghost'):
+                if tier == 'quick' and (HINTS4.index(hint) + (shape == 'tuple') + (variant == 'ghost') + seed) % 2:
+                    continue
+                out.append({'family': 'c07', 'shape': shape, 'hint': hint, 'variant': variant})
+    out.append({'family': 'c07', 'shape': 'named', 'hint': 'Unspecified', 'variant': 'parent'})
+    out.append({'family': 'c07', 'shape': 'named', 'hint': 'Struct', 'variant': 'parent'})
+    return out
+
+
+def make_c07(sh):
+    shape, hint, variant = sh['shape'], sh['hint'], sh['variant']
+
+    def make():
+        nm = (lambda s: s) if shape == 'named' else (lambda s: None)
+        traits = [TraitInstr('map', 'X', hint=hint, tag='t1'), TraitInstr('try_map', 'X', hint=hint, err='Er', tag='t2'),
+                  TraitInstr('into_existing', 'X', hint=hint, tag='t3'), TraitInstr('try_into_existing', 'X', hint=hint, err='Er', tag='t4')]
+        ren = ('n', 'zz') if (hint == 'Struct' or (hint == 'Unspecified' and shape == 'named')) else ('i', 0)
+        if variant == 'parent':
+            # parameterised parent whose child fields carry separate owned / by-ref instructions
+            p = ParentInstr(fields=[PField(('n', 'pa'), attrs=[(Ch('pa1', ['owned_into', 'map_owned', 'into']).dom[0] if False else 'owned_into', ('n', 'qa'), '__o(~)'), ('ref_into', ('n', 'qb'), '__r(~)'), ('from', ('n', 'qc'), None)], tag='pa'),
+                                    PField(('n', 'pb'), attrs=[('map', ('n', 'qd'), None)], tag='pb'), PField(('n', 'pc'), tag='pc')])
+            return Spec('struct', shape=shape, traits=traits, members=[Member(nm('par'), ty='ParT', instrs=[p]), Member(nm('b'), instrs=[MapInstr(Ch('m1n', ['map', 'into', 'owned_into']), member=('n', 'yy'), tag='e1')])])
+        if variant == 'map':
+            m0 = Member(nm('a'), instrs=[MapInstr(Ch('m0n', MEMBER_MAP_NAMES), member=Ch('m0m', [None, ren]) if shape == 'named' or hint != 'Struct' else ren, action=Ch('m0a', [None, '__e0(~, @)']), tag='e0'),
+                                         Opt(Ch('m0p', [False, True], fork=True), MapInstr(Ch('m0n2', ['map', 'owned_into', 'ref_into_existing', 'try_from']), member=ren, action='__e1(~)', tag='e1'))])
+            m1 = Member(nm('b'), instrs=[MapInstr('map', member=('n', 'yy') if ren[0] == 'n' else ('i', 1), tag='e2')] if (shape == 'tuple' and hint == 'Struct') else [])
+            m2 = Member(nm('c'), instrs=[MapInstr('map', member=('n', 'xx'), tag='e3')] if (shape == 'tuple' and hint == 'Struct') else [])
+            return Spec('struct', shape=shape, traits=traits, members=[m0, m1, m2])
+        m0 = Member(nm('a'), instrs=[MapInstr('map', member=ren, tag='e0')] if (shape == 'tuple' and hint == 'Struct') else [])
+        m1 = Member(nm('b'), instrs=[GhostInstr(Ch('g1n', ['ghost', 'ghost_owned', 'ghost_ref']), action=Ch('g1a', ['__g1(@)', None]), tag='g1')] + ([MapInstr('map', member=('n', 'yy'), tag='e2')] if (shape == 'tuple' and hint == 'Struct') else []))
+        m2 = Member(nm('c'), instrs=[MapInstr(Ch('m2n', ['map', 'into', 'from', 'try_into', 'owned_into_existing']), member=(('n', 'xx') if ren[0] == 'n' else ('i', 2)), action=Ch('m2a', [None, '__e2(~)']), tag='e2')])
+        gi = GhostsInstr(Ch('gsn', ['ghosts', 'ghosts_owned', 'ghosts_ref']), data=[GhostData(('n', 'gx') if ren[0] == 'n' else ('i', 3), '__gx(@)', tag='gx')])
+        return Spec('struct', shape=shape, traits=traits, members=[m0, m1, m2], type_instrs=[gi])
+    return make
+
+
+FAMILIES = {'c07': make_c07, 'misuse': make_misuse, 'c04': make_c04, 'flat': make_flat, 'params': make_params, 'ghosts': make_ghosts, 'child': make_child, 'parent': make_parent, 'enum': make_enum}
+SHARDERS = {'c07': c07_shards, 'misuse': misuse_shards, 'c04': c04_shards, 'flat': flat_shards, 'params': params_shards, 'ghosts': ghosts_shards, 'child': child_shards, 'parent': parent_shards, 'enum': enum_shards}
 
 
 def make(sh):
@@ -397,6 +442,6 @@ def make(sh):
 
 def all_shards(tier, seed, families=None):
     out = []
-    for f in (families or [x for x in FAMILIES if x not in ('c04', 'misuse')]):
+    for f in (families or [x for x in FAMILIES if x not in ('c04', 'misuse', 'c07')]):
         out.extend(SHARDERS[f](tier, seed))
     return out
